@@ -153,21 +153,61 @@ def main(argv=None):
     todo += ["lemma:" + k for k, l in eng.lemmas.items() if prop in l["serves"]]
     done, results = set(), []
     ctx = mp.get_context("fork")
-    with ctx.Pool(a.jobs) as pool:
-        while todo:
-            batch = [k for k in dict.fromkeys(todo) if k not in done]
-            todo = []
-            if not batch:
-                break
-            for r in pool.imap_unordered(work, [(k, a.src, a.tier, seed) for k in batch]):
-                done.add(r["key"])
-                results.append(r)
-                # assume-guarantee closure: every callee contract that was assumed must itself be
-                # discharged on this run, unless it is a trusted external
-                for callee in (r.get("info") or {}).get("calls", []):
-                    c = eng.contracts.get(callee)
-                    if c is not None and not c.trusted and callee not in done:
-                        todo.append(callee)
+    task_wall = 600 if a.tier == "quick" else 3600
+
+    def child(key, conn):
+        try:
+            conn.send(work((key, a.src, a.tier, seed)))
+        except BaseException as e:  # never leave the parent waiting
+            conn.send({"key": key, "obligations": [], "info": None, "unsupported": None,
+                       "error": f"{type(e).__name__}: {e}", "trace": traceback.format_exc()})
+        finally:
+            conn.close()
+
+    running = {}   # key -> (process, parent_conn, start time, attempt)
+    attempts = {}
+    queue = list(dict.fromkeys(todo))
+    while queue or running:
+        while queue and len(running) < a.jobs:
+            k = queue.pop(0)
+            if k in done or k in running:
+                continue
+            pc, cc = ctx.Pipe(duplex=False)
+            pr = ctx.Process(target=child, args=(k, cc), daemon=True)
+            pr.start()
+            cc.close()
+            attempts[k] = attempts.get(k, 0) + 1
+            running[k] = (pr, pc, time.time())
+        for k, (pr, pc, t1) in list(running.items()):
+            r = None
+            if pc.poll(0.02):
+                try:
+                    r = pc.recv()
+                except EOFError:
+                    r = {"key": k, "obligations": [], "info": None, "unsupported": None,
+                         "error": "worker died without a result"}
+            elif not pr.is_alive():
+                r = {"key": k, "obligations": [], "info": None, "unsupported": None,
+                     "error": f"worker exited with code {pr.exitcode} without a result"}
+            elif time.time() - t1 > task_wall:
+                pr.kill()
+                r = {"key": k, "obligations": [], "info": None, "error": None,
+                     "unsupported": f"worker exceeded {task_wall}s wall (killed)"}
+            if r is None:
+                continue
+            pr.join(timeout=5)
+            del running[k]
+            if (r.get("error") or "").startswith("worker") and attempts[k] < 2:
+                queue.append(k)   # one retry for a worker that vanished
+                continue
+            done.add(k)
+            results.append(r)
+            # assume-guarantee closure: every callee contract that was assumed must itself be
+            # discharged on this run, unless it is a trusted external
+            for callee in (r.get("info") or {}).get("calls", []):
+                c = eng.contracts.get(callee)
+                if c is not None and not c.trusted and callee not in done and callee not in running:
+                    queue.append(callee)
     return report.finish(eng, prop, a, seed, results, time.time() - t0)
 
 
